@@ -493,7 +493,7 @@ def _renewal(ctx, nz, server, loop):
     graph = loop.graph
     var = loop.var
     fails = [n for n in graph.nodes if n.kind == 'test' and any(
-        K.is_meth(c, 'renew') for c in K.calls(n.ast))]
+        K.is_meth(c, 'renew') for c in K.test_calls(loop.func, n))]
     ctx.require(fails, 'renewal test in the placement loop')
     for test in fails:
         false_edges = [e for e in test.succ if e.kind == 'false']
